@@ -1,6 +1,7 @@
 //! E2 `pipesim`: byte-stream components (noise, mux, rpc) over `SimPipe`s.
 pub mod bytes;
 pub mod mux;
+pub mod muxflood;
 pub mod noise;
 pub mod rpc;
 
@@ -34,6 +35,7 @@ pub fn run_case(mode: &str, seed: u64, keep_log: bool) -> (CaseResult, Vec<Strin
         "noise" => one(seed, |s| noise::run_benign(seed, s, keep_log)),
         "mux" => one(seed, |s| mux::run(seed, s, keep_log)),
         "rpc" => one(seed, |s| rpc::run(seed, s, keep_log)),
+        "muxflood" => one(seed, |s| muxflood::run(seed, s, keep_log)),
         "bytes" => panics_to_c10(one(seed, |s| bytes::run(seed, s, keep_log, None))),
         // Exhaustive over the 2^16 mux header values: run i of the batch sends header value i.
         "mux-header" => {
